@@ -2,36 +2,10 @@
 import json, os
 from vlib.common import Hex
 
-# Genuine defects of relic found by this check and reported to the maintainer of /verif.  Until they are triaged
-# (fix: commit in /repo or an entry in known_findings.json) they are printed as PENDING-FINDING and recorded in the
-# evidence, but do not fail the check.  Exact keys only: anything else is a VIOLATION.
-PENDING = {
-    "C10:client:rfc3161:missing-nonce-panic":
-        "SanityCheckToken dereferences a nil *big.Int when a granted, well-signed token carries no nonce: the signer panics, no failover",
-    "C10:client:legacy:reply-unchecked":
-        "ParseLegacyResponse checks nothing: tsClient returns a token with a wrong content / bad signature as success, later authorities are never tried",
-    "C10:client:rfc3161:imprint-alg-unchecked":
-        "SanityCheckToken compares only the imprint bytes, not its algorithm identifier: a token labelled with another algorithm is returned as success",
-    "C10:client:rfc3161:negative-status-accepted":
-        "ParseResponse rejects only Status > grantedWithMods: PKIStatus -1 with a valid token is treated as granted",
-    "C10:sign:negative-status-attached":
-        "signing attaches the token of a reply whose PKIStatus is -1",
-    "C10:sign:missing-nonce-panic":
-        "signing panics (nil dereference) on a token without nonce instead of trying the next authority",
-    "C10:sign:legacy:no-failover":
-        "legacy (Microsoft) timestamping: a bad reply from the first authority fails the signing although a later authority is genuine",
-    "C10:sign:imprint-alg:no-failover":
-        "token with a foreign imprint algorithm passes the client, fails the attach self-check, signing fails although a later authority is genuine",
-    "C10:sign:vsix:unverifiable-timestamp-attached":
-        "VSIX signing has no self-check: a token with a foreign imprint algorithm is attached and signing reports success; relic's own verify rejects the output",
-    "C10:verify:token-without-content-panic":
-        "pkcs9.Verify -> unpackTokenInfo indexes infobytes[0] before any check: a timestamp token with detached/empty content panics the verifier",
-    "C10:verify:zero-gentime-judged-at-now":
-        "a token whose genTime is 0001-01-01T00:00:00Z yields the zero time.Time, which x509 treats as 'now': chains are judged at the present instead of the attested time",
-}
-
+# Finding keys are exact (entry point + input class); keys listed in known_findings.json are printed as KNOWN-FINDING by
+# ctx.violation, everything else is a VIOLATION.
 ERR_CODES = [("request nonce mismatch", 8), ("message imprint mismatch", 9), ("request denied", 5), ("trailing bytes", 4),
-             ("unmarshalling response", 3), (": HTTP ", 2), ("is empty", 10), ("illegal base64", 3),
+             ("unmarshalling response", 3), ("unpack TSTInfo", 7), (": HTTP ", 2), ("is empty", 10), ("illegal base64", 3),
              ("unsupported hash", 11), ("digest check failed", 9), ("does not match the enclosing signature", 9),
              ("content digest does not match", 9),
              ("verification error", 6), ("missing content", 6), ("Post \"", 1), ("context deadline", 1), ("asn1:", 3)]
@@ -96,12 +70,10 @@ def run(ctx, replay=None):
                "signers/cosign:.attachTimestamp", "signers/vsix:.checkTimestamp"]
     if not st["harness_ok"]:
         return ctx.finish("proof", ctx.proof_coverage([], anchors), [])
-    pending_hits = {}
+    finding_cases = {}
 
     def report(key, detail, obj, found=True):
-        if key in PENDING and not any(k.get("key") == key and k.get("property") == "C10" for k in ctx.known):
-            pending_hits.setdefault(key, []).append(obj)
-            return
+        finding_cases[key] = finding_cases.get(key, 0) + 1
         ctx.violation(key, detail, obj, found)
 
     # ---- run the implementation
@@ -366,16 +338,6 @@ def run(ctx, replay=None):
                       {"cases": [c], "why": why, "broken": "correspondence C10.Run"}, False)
     ctx.proof_verdict()
 
-    # ---- pending findings
-    for key, objs in sorted(pending_hits.items()):
-        print("PENDING-FINDING: property=C10 %s (%s) [%d cases]" % (key, PENDING[key], len(objs)))
-        ctx.notes.append("pending finding %s reproduced on %d cases, e.g. %s" % (
-            key, len(objs), json.dumps({k: objs[0]["cases"][0].get(k) for k in ("kind", "style", "type", "pool", "seq", "form", "token", "leaf", "tsa", "result", "err_text", "verify_err", "accepted") if k in objs[0]["cases"][0]})[:600]))
-    if not replay:
-        missing = [k for k in PENDING if k not in pending_hits and not any(kh[0] == k for kh in ctx.known_hits)]
-        if missing:
-            ctx.notes.append("pending findings NOT reproduced in this run (fixed or not exercised): %s" % missing)
-
     # ---- coverage
     dist = {}
     for c in client:
@@ -413,7 +375,7 @@ def run(ctx, replay=None):
                 "rule": "client: every sequence of <=2 authority behaviours over the full behaviour list (17 RFC 3161 / 8 legacy), every sequence of 3 over the core behaviours, plus each remaining behaviour in first/middle/last position, context-expiry cases; sign: 13 signer types x pools (default/named/none/flag-off) x behaviour sequences; verify: 8 leaf windows x 12 token/TSA scenarios + TSA boundary windows + counterSignature form; cache: 6 multi-step scenarios. non-trivial = distinct inputs on which at least one authority was contacted / a verification decision was taken",
                 "samples": samples, "exhaustive": False, "input_distribution": dist,
                 "model_mismatches": len(mism),
-                "pending_findings": {k: {"what": PENDING[k], "cases": len(v), "example": v[0]["cases"][0]} for k, v in pending_hits.items()}})
+                "finding_cases": finding_cases})
     return ctx.finish("proof", cov, [
         "digest function idealised (arbitrary H; collision-freeness only where stated)",
         "validity of a token's own signature, DER parsing and x509 path validation are attributes of the model's inputs (oracles); the harness supplies them by construction and cross-checks with openssl",
